@@ -822,7 +822,7 @@ def _defect8_seed():
 
 def scenarios(rng, tier):
     yield _defect8_seed()
-    n = 3000 if tier == 'quick' else 24000
+    n = 3000 if tier == 'quick' else 16000
     for i in range(n):
         yield _gen_scenario(rng, tier, 'b' if i % 6 == 5 else 'a')
 
